@@ -976,6 +976,12 @@ def _emit_fn(asm, out, unit, kv, block, default_props):
             pass
     if re.search(r'\bcommon::\w+', _code_only(body)) and not any(t.startswith('rewrite ') and 'R11' in t.split() for t in block):
         block = list(block) + ['rewrite R11']
+    # `OpCode::X as u8` in a unit whose template gives the cast a contract (`opcode_u8`): R21 is applied whether or not the
+    # block asks for it — a bare enum cast is an unconstrained byte to Verus, so a clause about emitted opcodes would be
+    # REFUTED on a body that merely moved the cast (a false alarm on a behaviour-preserving edit)
+    if re.search(r'\bfn\s+opcode_u8\s*\(', getattr(asm, 'template_text', '')) and re.search(r'\bas\s+u8\b', _code_only(body)) and 'OpCode' in (sig + body) \
+            and not any(t.startswith('rewrite ') and 'R21' in t.split() for t in block):
+        block = list(block) + ['rewrite R21']
     # --- rewrites on signature+body
     requires, ensures, attrs = [], [], []
     loops = {}
